@@ -838,6 +838,9 @@ class Frame:
             rhs = self.eval(st.value)
             cur = npmodel.getitem(self.eng, base, idx)
             newv = npmodel.binop(self.eng, st.op, cur, rhs)
+            if isinstance(cur, Arr) and cur.base is not None and cur.base.nviews > 0:
+                cur.base.nviews -= 1          # the temporary view of `a[idx] op= v` dies here
+                cur.base = None
             npmodel.setitem(self.eng, base, idx, newv)
         elif isinstance(tg, ast.Attribute):
             obj = self.eval(tg.value)
